@@ -145,6 +145,13 @@ bool index_read(zckCtx *zck, char *data, size_t size, size_t max_length) {
                             count);
             return false;
         }
+        /* Without compression a chunk is stored as it is, so the two sizes
+         * have to agree; the reader hands out the stored bytes */
+        if(zck->comp.type == ZCK_COMP_NONE && chunk_length != new->comp_length) {
+            set_fatal_error(zck, "Chunk %i is uncompressed, but its stored "
+                            "and uncompressed sizes differ", count);
+            return false;
+        }
         new->length = chunk_length;
         new->zck = zck;
         new->valid = 0;
